@@ -95,7 +95,7 @@ func (s *Store) Cancel(ctx context.Context, id int64) error {
 	s.mu.Lock()
 	defer s.mu.Unlock()
 
-	var index int
+	index := -1
 	for i, timeout := range s.timeouts {
 		if timeout.ID != id {
 			continue
@@ -103,6 +103,11 @@ func (s *Store) Cancel(ctx context.Context, id int64) error {
 
 		index = i
 		break
+	}
+
+	if index < 0 {
+		// Unknown timeout: there is nothing to cancel and no other timeout may be touched.
+		return nil
 	}
 
 	left := s.timeouts[:index]
